@@ -3,6 +3,13 @@ HOOK_COMMITS = []   # no source hooks needed so far
 FIX_COMMITS = ["5bfc12a fix: order_config word boundary (C08)", "943f14e fix: patch sort key (C08)", "1bcbbe1 fix: rewrite logic sends the new line ... (C01)", "28efb2a fix: file mode builds the patch from the complete diff (C16)", "c62ee59 fix: pool parent loop leaves only when the done queue is drained (C12)"]
 PENDING = {}
 CLAIMS = {
+    "C10": {
+        "technique": "TLA+ generator-program semantics (GenRun.tla: meaning = yielded paths; A-layer = TreeGenerator indentation + offside parse) + TLC MC of A=P over all programs in bounds; TLC-enumerated programs interpreted by real PartialGenerators through _old_new_per_device; TLC trace judge",
+        "text": "TLC shows for every program <=4 (thorough 6) operations over yields, multi-line yields, block, block_if, multiblock that the indented lines parse to exactly the yielded paths; the same programs and "
+                "seeded longer ones, with ACL texts per generator (covering ACLs, rule-menu ACLs, different left margins), run through the production generator path; judged: GeneratorError iff an uncovered "
+                "path (in bands), exclusivity conflict iff two generators may delete one yielded row, otherwise new = union of yielded paths with nothing else.",
+        "note": "Stub context for _old_new_per_device (empty running config, no implicit, no filter ACL); ACL structures driver-generated; bands as in C06.",
+    },
     "C02": {
         "technique": "TLA+ ACL coverage semantics (Acl.tla) + device model (Device.tla); slot-closed ACLs derived from the TLA+ rulebook catalogue and TLC-enumerated configurations replayed into _diff_and_patch with ACL; TLC trace judge of (a)(b)(c)",
         "text": "For catalogue rulebooks x ACLs of one or two generators x (old_full, new) the real command paths are judged: every path covered level by level (directly or negated), every uncovered row of old "
